@@ -627,6 +627,24 @@ func init() {
 				subs(v, 0, &found)
 				for _, b := range found {
 					ok := DominatedByExt(b, CmpCond(token.LEQ, same(b.Y), same(b.X))) || DominatedByExt(b, CmpCond(token.LSS, same(b.Y), same(b.X)))
+					if !ok {
+						// x - min(…, x): the subtrahend is bounded by the minuend by construction
+						if call, isCall := unconv(b.Y).(*ssa.Call); isCall {
+							name := ""
+							if sc := call.Call.StaticCallee(); sc != nil {
+								name = sc.Name()
+							} else if bi, isB := call.Call.Value.(*ssa.Builtin); isB {
+								name = bi.Name()
+							}
+							if name == "min" || name == "min32" {
+								for _, a := range call.Call.Args {
+									if sameExpr(a, b.X, 0) || unconv(a) == unconv(b.X) {
+										ok = true
+									}
+								}
+							}
+						}
+					}
 					c.Check(ok, ks.key("nowrap:"+what+"@"+c.P.FuncName(fn)), c.Pos(at), "minuend ≥ subtrahend holds on every path to the subtraction",
 						fmt.Sprintf("unsigned subtraction %s - %s feeding %s is not guarded against wrapping (%s)", shortValue(c.P, b.X), shortValue(c.P, b.Y), what, c.describeConds(b)))
 				}
